@@ -378,7 +378,7 @@ def main(tier, seed, replay=None):
                 if fn.endswith(".json"):
                     o = json.load(open(os.path.join(cdir, fn)))
                     (snap_sets if o.get("snap_overlay") else plain_sets).append(set_from_json(o["set"]))
-        n_main, n_ooo, n_snap, n_snapreuse, n_bulk = (60, 30, 40, 6, 0) if tier == "quick" else (1200, 500, 800, 60, 3)
+        n_main, n_ooo, n_snap, n_snapreuse, n_bulk = (150, 70, 100, 12, 0) if tier == "quick" else (1200, 500, 800, 60, 3)
         for i in range(n_main):
             cs = gen_set(rng, "m%d" % i, REGIMES[i % len(REGIMES)])
             mode = rng.choice(["contig", "contig", "flowsplit"])
